@@ -19,6 +19,7 @@ package main
 // serialised and parsed back before it is abstracted.
 
 import (
+	"bytes"
 	"encoding/hex"
 	"flag"
 	"fmt"
@@ -88,7 +89,11 @@ func duidFor(c int, r *rand.Rand) dhcpv6.DUID {
 }
 
 func newPfxScn(t *Trace, pg pfxGeom, r *rand.Rand) (*pfxScn, error) {
-	h, err := prefix.Plugin.Setup6(pg.pool, strconv.Itoa(pg.page))
+	pageText := strconv.Itoa(pg.page)
+	if r.Intn(4) == 0 {
+		pageText = "0" + pageText // a decimal number is a decimal number, leading zero or not
+	}
+	h, err := prefix.Plugin.Setup6(pg.pool, pageText)
 	t.Emit(Ev{"ev": "reset", "N": pg.g.n, "page": pg.page, "pool": pg.pool})
 	if err != nil || h == nil {
 		return nil, fmt.Errorf("Setup6(%s,%d): %v", pg.pool, pg.page, err)
@@ -103,7 +108,12 @@ func (s *pfxScn) duid(c int) dhcpv6.DUID {
 		return d
 	}
 	var d dhcpv6.DUID
-	if c >= 100 && c < 200 {
+	if c >= 200 && c < 400 {
+		// clients 200+2k and 201+2k: client identifiers longer than 130 bytes that differ only in their last byte
+		body := bytes.Repeat([]byte{byte(c / 2)}, 146)
+		body[145] = byte(c % 2)
+		d = &dhcpv6.DUIDEN{EnterpriseNumber: 32473, EnterpriseIdentifier: body}
+	} else if c >= 100 && c < 200 {
 		var mac net.HardwareAddr
 		switch b := s.duid(c - 100).(type) {
 		case *dhcpv6.DUIDLL:
@@ -162,6 +172,12 @@ func (s *pfxScn) hint(c int, kind string) (dhcpv6.Option, bool) {
 		return s.pg.page + 1 + s.r.Intn(128-s.pg.page)
 	}
 	switch {
+	case kind == "junkopt":
+		// an IA_PD sub-option that is no IAPrefix (a status code, or an option nobody knows): the IA_PD carries no hint
+		if s.r.Intn(2) == 0 {
+			return &dhcpv6.OptStatusCode{StatusCode: iana.StatusSuccess, StatusMessage: "ok"}, true
+		}
+		return &dhcpv6.OptionGeneric{OptionCode: 65001, OptionData: []byte{1, 2, 3}}, true
 	case kind == "nil":
 		if s.r.Intn(2) == 0 {
 			// a non-zero address with prefix-length 0 parses to a nil prefix as well
@@ -499,7 +515,7 @@ func (s *pfxScn) deliver(c, relay int, wire []byte, kinds [][]string) bool {
 var pfxIAShapes = [][]string{
 	{}, {"nil"}, {"nil", "nil"}, {"zero"}, {"zerol"}, {"own0"}, {"own1"}, {"own0", "nil"}, {"nil", "own0"}, {"own0", "own1"},
 	{"other"}, {"free"}, {"freel"}, {"inside"}, {"outside"}, {"ownlen0"}, {"biglen"}, {"free", "free"}, {"zero", "zero"}, {"own0", "free"},
-	{"shortlen"},
+	{"shortlen"}, {"junkopt"}, {"junkopt", "junkopt"},
 }
 
 func pfxMessages(level int) [][]pfxIA {
@@ -576,7 +592,7 @@ func runPrefixBFS(t *Trace, seed int64, depth, level, shard, shards int) error {
 // long random histories, several clients, exhaustion
 func runPrefixSim(t *Trace, seed int64, count, shard, shards int) error {
 	gs := pfxGeoms()
-	kinds := []string{"nil", "zero", "zerol", "own0", "own1", "own2", "ownlen0", "other", "free", "freel", "inside", "outside", "biglen", "shortlen"}
+	kinds := []string{"nil", "zero", "zerol", "own0", "own1", "own2", "ownlen0", "other", "free", "freel", "inside", "outside", "biglen", "shortlen", "junkopt"}
 	for k := shard; k < count; k += shards {
 		r := rand.New(rand.NewSource(seed*7919 + int64(k)))
 		pg := gs[k%len(gs)]
@@ -593,6 +609,8 @@ func runPrefixSim(t *Trace, seed int64, count, shard, shards int) error {
 			c := r.Intn(nc)
 			if r.Intn(5) == 0 {
 				c += 100 // a sibling: same hardware address, another client identifier
+			} else if r.Intn(8) == 0 {
+				c = 200 + c%4 // over-long client identifiers that share their first 145 bytes
 			}
 			nia := r.Intn(4)
 			if r.Intn(3) == 0 {
@@ -673,6 +691,26 @@ func runPrefixLong(t *Trace, seed int64, level, shard, shards int) error {
 				}
 				s.send(0, ask, 0)
 			}
+		}
+	}
+	// one IA_PD with MORE THAN 64 hints: first for free blocks, then - twice - for exactly the prefixes the client was given
+	if level <= 2 {
+		k++
+		if k%shards == shard {
+			r := rand.New(rand.NewSource(seed*31 + int64(k)))
+			s, err := newPfxScn(t, mkPfxGeom("2001:db8:0:fe00::/55", 64), r)
+			if err != nil {
+				return err
+			}
+			var free, own []string
+			for i := 0; i < 70; i++ {
+				free = append(free, "free")
+				own = append(own, "own"+strconv.Itoa(i))
+			}
+			s.send(0, []pfxIA{{free}}, 0)
+			s.send(0, []pfxIA{{own}}, 0)
+			s.send(0, []pfxIA{{own}}, 1)
+			s.send(1, []pfxIA{{}}, 0)
 		}
 	}
 	if level <= 2 {
